@@ -19,7 +19,8 @@ RULE = ('A base deck from the mixed generators (level-0 Boolean decks, '
         'columns); continuation lines at any existing blank by >= 5 leading '
         'blanks (or a tab) or a trailing ampersand; full-line c comments '
         'between and inside cards and in-line $ comments; a leading message '
-        'block; blanks around the equals sign of keyword=value on cell and '
+        'block; integers (cell, surface, material, universe, TR numbers) '
+        'with leading zeros; blanks around the equals sign of keyword=value on cell and '
         'material cards; blanks / tabs after the last entry of a line, blank-only '
         'delimiter lines and CRLF line ends; number spellings (Python-compatible: 1.50, +1.5, 15e-1, .5 / '
         'Fortran-only: 1.5+0, 1.5d0, labelled separately); data-card '
@@ -39,7 +40,7 @@ ASSUMPTIONS = [
 ]
 
 REWRITES = ['case', 'blanks', 'indent', 'breaks', 'amp', 'dollar',
-            'ccomments', 'message', 'shorthand', 'eqblanks']
+            'ccomments', 'message', 'shorthand', 'eqblanks', 'intzeros']
 
 
 @st.composite
